@@ -1292,6 +1292,15 @@ impl<'a> GeneratorState<'a> {
         pos: usize,
         load: bool,
     ) -> Result<(), Error> {
+        // A constant (or the address held by a constant pointer) is not a place to store to:
+        // STA has no immediate addressing mode
+        if !load {
+            if let ExprType::Immediate(_) = expr {
+                return Err(self
+                    .compiler_state
+                    .syntax_error("Store only works on memory locations or registers", pos));
+            }
+        }
         self.protected = true;
         match expr {
             ExprType::X => {
